@@ -700,16 +700,21 @@ impl Check for C08 {
         let mut first_c: BTreeSet<ConnId> = BTreeSet::new();
         let kinds: Vec<String> = v.plan.peers.iter().map(|p| format!("{:?}/{}", p.hs, p.script.iter().filter(|s| matches!(&s.act, crate::plan::Act::Send(Msg::Handshake { .. }))).count())).collect();
         vd.class = hash_of(&kinds);
+        let mut wire_hs: BTreeMap<ConnId, Vec<(Vec<u8>, Vec<u8>)>> = BTreeMap::new();
         for TL { seq, t, k } in &v.tl {
             let (seq, now) = (*seq, *t);
             match k {
+                TK::P(c, Item::Msg(Msg::Handshake { info_hash, peer_id, .. })) => {
+                    wire_hs.entry(*c).or_default().push((info_hash.clone(), peer_id.clone()));
+                }
                 TK::C(c, m) => {
                     let info = match v.conns.get(c) {
                         Some(i) => i,
                         None => continue,
                     };
-                    if first_c.insert(*c) {
-                        // R3: the first thing the client writes is its own exact handshake
+                    if !matches!(m, Msg::KeepAlive) && first_c.insert(*c) {
+                        // R3: the first thing the client writes (keep-alives aside, as for R1) is its
+                        // own exact handshake
                         let ok = match m {
                             Msg::Handshake { pstr, info_hash, peer_id, .. } => pstr.as_slice() == crate::codec::PSTR && info_hash[..] == ih[..] && *peer_id == own,
                             _ => false,
@@ -749,7 +754,12 @@ impl Check for C08 {
                         let h: Vec<u8> = n[..20].iter().map(|x| *x as u8).collect();
                         let id: Vec<u8> = n[20..].iter().map(|x| *x as u8).collect();
                         let mut why = None;
-                        if h[..] != ih[..] {
+                        // the reference decoder must have seen this very handshake on the wire:
+                        // what the client accepted as one may carry another protocol string
+                        let on_wire = wire_hs.get(&c).map(|l| l.iter().any(|(a, b)| *a == h && *b == id)).unwrap_or(false);
+                        if !on_wire {
+                            why = Some("not a BitTorrent handshake on the wire (protocol string)".to_string());
+                        } else if h[..] != ih[..] {
                             why = Some("other info-hash".to_string());
                         } else if !info.incoming {
                             if let Some(want) = announced_id(v.plan, addr) {
